@@ -181,6 +181,11 @@ func rulesC10(c *Ctx) {
 				exact("listen-stream", 2)
 				continue
 			}
+			if isNilIdent(rhs) {
+				// "no stream": the same as leaving the zero value, which the nil test below turns into a refused write
+				c.Ok("Write:s=none", wr, w, "no stream selected (the write is refused by the nil test that follows)")
+				continue
+			}
 			c.Fail("Write:s=?", wr, w, "unrecognised stream selection %s", exprStr(rhs))
 		}
 		c.Pin("stream selections", nS, 3)
